@@ -3,6 +3,7 @@
 
 #![allow(clippy::all)]
 
+pub mod cachemodel;
 pub mod engine;
 pub mod gen;
 pub mod props;
